@@ -45,7 +45,7 @@ CHECKS = {
         "proptest grammar mutants with recomputed checksums + checksum-repaired byte mutations + exhaustive flip/truncation sweep + raw bytes; "
         "totality oracle (no unwind, bounded post-EOF polls, heap cap); libFuzzer targets in the thorough tier",
         "exploration",
-        "42 classes of malformed-but-checksum-valid frames built from the generator's frame IR (1-3 per stream), byte-level mutants "
+        "43 classes of malformed-but-checksum-valid frames built from the generator's frame IR (1-3 per stream), byte-level mutants "
         "of valid files with CRC-8/CRC-16 repaired, every single-bit flip and truncation of a corpus of small files, and raw bytes, "
         "each through 8 file-level and 5 frame-level entry points (all readers, verify_reader, FrameIterator + Subframe::decode, "
         "generate_seektable, read_blocks, FlacStreamReader, Frame/FrameHeader::read*), in both build profiles; every reader is called twice more after its first error. Oracle: Ok/Err only, "
